@@ -200,6 +200,14 @@ example : nm_modf ∈ Gen.multiOutUfuncs ∧ nm_frexp ∈ Gen.multiOutUfuncs ∧
 
 /-! ### `out=` -/
 
+/-- **out_trial_deterministic.** Whether the out= path refuses a call in its trial step does not depend on the contents of
+uninitialised memory: for every ufunc behaviour and any two memory contents the outcome is the same (the trial operands are
+built with `np.ones`, read off the source) — `x **= y` and `np.power(x, y, out=x)` cannot fail on one run and work on the next. -/
+theorem out_trial_deterministic (raisesOn : Int → Bool) (mem mem' : Int) :
+    outTrialRaises raisesOn mem = outTrialRaises raisesOn mem' := by
+  have h : Gen.ufuncOutTrialOnes = true := rfl
+  simp [outTrialRaises, h]
+
 /-- the three class names are three names -/
 theorem cls_distinct : nm_COO ≠ nm_GCXS ∧ nm_COO ≠ nm_DOK ∧ nm_GCXS ≠ nm_DOK ∧ nm_GCXS ≠ nm_COO ∧ nm_DOK ≠ nm_COO ∧ nm_DOK ≠ nm_GCXS := by
   decide
